@@ -31,3 +31,7 @@ chk('C02','exploration',
  'Differential lockstep of handle operations against *os.File on tmpfs (chroot): random scenarios with up to 3 handles opened with any of the 36 flag sets on one file (optionally two hard links), 60 steps mixing all File methods with path-level Truncate/Rename/Link/Remove/Chmod/WriteFile; after every step the offset and Stat of every open handle and the content/attributes of every link are compared; bounded-exhaustive short sequences for every flag set; directory handles judged against the statement (each entry once, batches <= n, then EOF), including mixed ReadDir/Readdirnames.',
  'tmpfs/os.File as the reference; Seek whence 3/4 never generated; error strings, Fd, mtimes not compared',
  'differential lockstep against os.File with per-step observation sweep','DESIGN.md §5 C02')
+chk('C04','exploration',
+ 'Differential against the kernel and path/filepath in a chroot on tmpfs: link graphs over three link names, a directory and a file with 17 target shapes per link (relative, ../, absolute, self, 2- and 3-cycles, chains, dangling, through a directory or another link), all query paths of <= 3 components, six queries on every path and 17 mutating calls on freshly rebuilt graphs with full-tree comparison; chains of 1..256 links for the loop budget. Quick: a seed-dependent 1/7 sample of the 17^3 graphs; thorough: all of them.',
+ 'MemFS only; lexically clean targets and query paths (unclean spellings are defined by Clean(), C01)',
+ 'differential lockstep against the kernel over bounded-exhaustive link graphs','DESIGN.md §5 C04')
